@@ -97,7 +97,8 @@ func (reg *Registry[E]) ReadTagsFrom(r io.Reader) (int64, error) {
 		if length < 0 {
 			return n, errors.New("negative tag length: " + strconv.Itoa(int(length)))
 		}
-		values := make([]*E, length)
+		// the peer declares the length: the ids are appended as they arrive, not allocated up front
+		values := make([]*E, 0, min(int(length), 1024))
 
 		var id pk.VarInt
 		for i := 0; i < int(length); i++ {
@@ -111,7 +112,7 @@ func (reg *Registry[E]) ReadTagsFrom(r io.Reader) (int64, error) {
 				return n + n3, err
 			}
 
-			values[i] = &reg.values[id]
+			values = append(values, &reg.values[id])
 			n += n3
 		}
 
